@@ -1145,6 +1145,17 @@ class Executor:
             r = Heap(self, st).dhas(bt, at)
             outs.append((st, "val", sv_bool(z3.Not(r) if negate else r)))
             return outs
+        if kind in ("tuple", "list", "seq"):
+            okc = z3.Or(isinst(bt, "tuple"), isinst(bt, "list"))
+            bad = st.fork().assume(z3.Not(okc))
+            if self.feasible(bad):
+                outs.append((bad, "exc", self.new_obj(bad, K("TypeError"), "exc")))
+            st.assume(okc)
+            j = z3.Int("jm")
+            hh = Heap(self, st)
+            r = z3.Exists([j], z3.And(j >= 0, j < hh.llen(bt), hh.lget(bt, j) == at))
+            outs.append((st, "val", sv_bool(z3.Not(r) if negate else r)))
+            return outs
         raise Unsupported(f"membership in kind {kind}")
 
     def expr_Subscript(self, node, st):
